@@ -46,10 +46,25 @@ def templates(tier):
         ("T3a", E("Z", ["m"], take(T("A", "m"), T("B", "m"), sel=0), times(T("C", "m")))),
         ("T3b", E("Z", ["m"], times(T("C", "m")), take(T("A", "m"), T("B", "m"), sel=1))),
     ]
+    # two tensors sharing two contracted ranks: a tensor lacking only part of a flattened tuple is looked up by
+    # several coordinates at once
+    ts.append(("P8b", E("Z", ["m", "n"], times(T("A", "j", "k", "m"), T("B", "j", "k", "n")))))
+    ts.append(("P1ij", rename_vars(ts[0][1], {"m": "i", "n": "j"})))
     if tier != "quick":
         ts.append(("P8", E("Z", ["m", "n"], times(T("A", "j", "k", "m"), T("B", "k", "n"), T("C", "j", "n")))))
         ts.append(("S5", E("Z", ["m", "n"], times(T("A", "m", "n")), times(T("B", "m", "n")))))
     return ts
+
+
+def rename_vars(expr, ren):
+    """the same Einsum with index variables (hence rank names) renamed, e.g. {'m': 'i', 'n': 'j'}: rank names that end in
+    'I' collide with the compiler's own naming conventions (intermediate ranks 'K1I', level digits)"""
+    def ra(a):
+        return {ren.get(v, v): c for v, c in a.items()}
+    terms = []
+    for kind, fs, sel in expr["terms"]:
+        terms.append((kind, [f if f[0] == "v" else ("t", f[1], [ra(a) for a in f[2]]) for f in fs], sel))
+    return {"out": (expr["out"][0], [ren.get(v, v) for v in expr["out"][1]]), "terms": terms}
 
 
 def operand_perms(expr, limit=None):
